@@ -143,7 +143,11 @@ def unsplit_result(
     scheme: str, netloc: str, url: str, query: str, fragment: str
 ) -> str:
     """Unsplit a URL without any normalization."""
-    if netloc or (scheme and scheme in USES_AUTHORITY) or url[:2] == "//":
+    if not netloc and scheme and url and url[:1] != "/":
+        # a rootless path without an authority: "scheme:///path" would turn
+        # it into a rooted one
+        url = f"{scheme}:{url}"
+    elif netloc or (scheme and scheme in USES_AUTHORITY) or url[:2] == "//":
         if url and url[:1] != "/":
             url = f"{scheme}://{netloc}/{url}" if scheme else f"{scheme}:{url}"
         else:
